@@ -113,6 +113,20 @@ func (w *World) buildStake(v *View, cp CurParams) (*TxSpec, string) {
 		msg.Value = hugeInt(w.R)
 		label = "stake-huge"
 	}
+	if w.WhaleActor != nil && w.R.Chance(25) {
+		// the whale can afford stakes whose consensus power does not fit an int64 (2^63 * 10^6 and beyond)
+		a = w.WhaleActor
+		x := new(big.Int).Lsh(big.NewInt(1), uint(62+w.R.Intn(27)))
+		if w.R.Chance(25) {
+			x = new(big.Int).Add(new(big.Int).Lsh(big.NewInt(1), 63), big.NewInt(w.R.PickI64(-2, -1, 0, 1)))
+		}
+		if w.R.Chance(30) {
+			x = new(big.Int).Mul(new(big.Int).Lsh(big.NewInt(1), 63), big.NewInt(1000000))
+			x.Add(x, big.NewInt(w.R.PickI64(-1000000, -1, 0, 1)))
+		}
+		msg = posTypes.MsgStake{PubKey: a.Pub, Value: sdk.NewIntFromBigInt(x)}
+		label = "stake-whale"
+	}
 	return w.honest(a, msg, cp), label
 }
 
@@ -171,6 +185,10 @@ func (w *World) buildSend(v *View, cp CurParams) (*TxSpec, string) {
 		to = a.Addr
 	default:
 		to = w.All[w.R.Intn(len(w.All))].Addr
+	}
+	if w.R.Chance(4) {
+		// recipients given as something else than a 20-byte address (a raw 32-byte key, a short string)
+		to = sdk.Address(w.R.Bytes(40)[:[]int{32, 21, 5, 1}[w.R.Intn(4)]])
 	}
 	bal := v.Bal(a.AddrHex()).Int64()
 	fee := cp.RequiredFee("send")
@@ -254,6 +272,13 @@ func (w *World) ParamValue(key string, wellFormed bool) []byte {
 	case "pos/StakeDenom":
 		return jsonOf(Denom)
 	case "pos/StakeMinimum":
+		if w.P.MinStakeRaises {
+			cur := ParamsOf(w.View()).Min
+			if cur > 1000000000000 {
+				return jsonOf(cur)
+			}
+			return jsonOf(cur * r.PickI64(1, 2, 3, 20)) // only ever raised (a minimum below 10^6 lets power-0 validators stake)
+		}
 		return nil // kept constant within a history (DESIGN §7)
 	case "pos/ProposerRewardPercentage":
 		return jsonOf(int8(r.PickI64(0, 50, 90, 100)))
@@ -291,6 +316,9 @@ func (w *World) currentOwner(v *View, key string) *Actor {
 func (w *World) buildGovParam(v *View, cp CurParams) (*TxSpec, string) {
 	key := AllParamKeys[w.R.Intn(len(AllParamKeys))]
 	label := "govparam"
+	if w.P.MinStakeRaises && w.R.Chance(35) {
+		key = "pos/StakeMinimum"
+	}
 	// parameters that lost their ACL entry are interesting targets: nobody may change them any more
 	if w.R.Chance(30) {
 		acl := aclKeys(v)
@@ -406,6 +434,13 @@ func (w *World) buildDAO(v *View, cp CurParams) (*TxSpec, string) {
 	if w.R.Chance(15) {
 		to = ModuleAddress(posTypes.StakedPoolName)
 	}
+	if w.R.Chance(12) {
+		to = ModuleAddress(govTypes.DAOAccountName) // the DAO pays itself
+	} else if w.R.Chance(8) {
+		to = sender.Addr
+	} else if w.R.Chance(3) {
+		to = sdk.Address(w.R.Bytes(40)[:32])
+	}
 	msg := govTypes.MsgDAOTransfer{FromAddress: sender.Addr, ToAddress: to, Amount: sdk.NewInt(amt), Action: action}
 	if w.R.Chance(4) {
 		msg.Amount = hugeInt(w.R)
@@ -420,7 +455,12 @@ func (w *World) buildUpgrade(v *View, cp CurParams) (*TxSpec, string) {
 		sender = w.All[w.R.Intn(len(w.All))]
 		label = "upgrade-anyone"
 	}
-	msg := govTypes.MsgUpgrade{Address: sender.Addr, Upgrade: govTypes.Upgrade{Height: 1000000 + int64(w.R.Intn(100000)), Version: "2.0." + fmt.Sprint(w.R.Intn(10))}}
+	h := 1000000 + int64(w.R.Intn(100000))
+	if w.R.Chance(35) && w.Env.H >= 1 {
+		// a height that has already passed (it can never be reached again, so the exit-on-upgrade path stays out of reach)
+		h = 1 + w.R.Int63n(w.Env.H+1)
+	}
+	msg := govTypes.MsgUpgrade{Address: sender.Addr, Upgrade: govTypes.Upgrade{Height: h, Version: "2.0." + fmt.Sprint(w.R.Intn(10))}}
 	return w.honest(sender, msg, cp), label
 }
 
@@ -515,6 +555,14 @@ func (w *World) Hostile(s *TxSpec, cp CurParams) string {
 		s.PubInSig = other.Pub
 		return "pubkey-other"
 	case 14:
+		if w.P.SecondDenom && w.R.Bool() {
+			// the fee is offered in another denomination (alone, or next to one unit of the right one)
+			s.FeeRaw = sdk.NewCoins(sdk.NewInt64Coin(SecondDenom, 1+w.R.Int63n(5)))
+			if w.R.Bool() {
+				s.FeeRaw = s.FeeRaw.Add(sdk.NewCoins(sdk.NewInt64Coin(Denom, 1)))
+			}
+			return "fee-other-denom"
+		}
 		s.Memo = string(make([]byte, int(cp.MaxMemo)+1))
 		return "memo-too-long"
 	default:
@@ -585,6 +633,35 @@ func (w *World) HostileBytes(valid []byte) ([]byte, string) {
 		}
 	}
 	return r.Bytes(8), "random"
+}
+
+// FreshTx builds one honest transaction of a random kind without consuming scenario state (used for simulate).
+func (w *World) FreshTx() ([]byte, string, *TxSpec) {
+	v := w.View()
+	cp := ParamsOf(v)
+	var s *TxSpec
+	var label string
+	switch w.R.Intn(8) {
+	case 0:
+		s, label = w.buildStake(v, cp)
+	case 1:
+		s, label = w.buildUnstake(v, cp)
+	case 2:
+		s, label = w.buildUnjail(v, cp)
+	case 3:
+		s, label = w.buildGovParam(v, cp)
+	case 4:
+		s, label = w.buildDAO(v, cp)
+	case 5:
+		s, label = w.buildUpgrade(v, cp)
+	default:
+		s, label = w.buildSend(v, cp)
+	}
+	if s == nil {
+		return nil, "", nil
+	}
+	bz, _, _ := s.Build(w.Env.A.Cdc)
+	return bz, "fresh-" + label, s
 }
 
 // NextTx draws the next transaction of the random walk.
